@@ -17,11 +17,12 @@ Definition CALL_LEN : Z := 6.
 (* the relocation sites the scenarios create in .text *)
 Inductive site :=
 | SCall (pos addr : Z)            (* `call abs` at .text offset pos: RelocType::kX64AddressEntry, payload = the absolute target *)
-| SAbs (pos target loff : Z).     (* embed_label: 8 bytes at pos, RelocType::kRelToAbs, payload = the label's offset loff inside section `target` *)
+| SAbs (pos target loff : Z)      (* embed_label: 8 bytes at pos, RelocType::kRelToAbs, payload = the label's offset loff inside section `target` *)
+| SExpr (pos t1 o1 t2 o2 size : Z).   (* embed_label_delta across sections: RelocType::kExpression, (section t1 + o1) - (section t2 + o2) as a size-byte value *)
 
 Definition ABS_LEN : Z := 8.
-Definition site_pos (c : site) : Z := match c with SCall p _ => p | SAbs p _ _ => p end.
-Definition site_len (c : site) : Z := match c with SCall _ _ => CALL_LEN | SAbs _ _ _ => ABS_LEN end.
+Definition site_pos (c : site) : Z := match c with SCall p _ => p | SAbs p _ _ => p | SExpr p _ _ _ _ _ => p end.
+Definition site_len (c : site) : Z := match c with SCall _ _ => CALL_LEN | SAbs _ _ _ => ABS_LEN | SExpr _ _ _ _ _ n => n end.
 
 Definition site_entry (h : holder) (text_off : Z) (c : site) : rentry :=
   match c with
@@ -32,6 +33,10 @@ Definition site_entry (h : holder) (text_off : Z) (c : site) : rentry :=
     {| e_kind := RRelToAbs (match by_id h target with Some ts => Some (soff ts) | None => None end);
        e_secoff := text_off; e_off := pos; e_lead := 0; e_region := ABS_LEN;
        e_fmt := ufmt 8; e_payload := loff; e_old := 0 |}
+  | SExpr pos t1 o1 t2 o2 n =>
+    let lp t o := match by_id h t with Some ts => Some (soff ts + o) | None => None end in
+    {| e_kind := RExpr (lp t1 o1) (lp t2 o2); e_secoff := text_off; e_off := pos; e_lead := 0; e_region := n;
+       e_fmt := sfmt n; e_payload := 0; e_old := 0 |}
   end.
 
 (* what relocate_to_base writes for one entry: the value word (little endian) and, for an address-table call, the two
@@ -58,7 +63,7 @@ Definition is_last (h : holder) (id : Z) : bool :=
 
 (* `RelocEntry` bounds check of relocate_to_base: source_offset < buffer_size and buffer_size - source_offset >= region_size *)
 Definition site_in_bounds (text : section) (c : site) : bool :=
-  (0 <=? site_pos c) && (site_pos c <? sbsize text) && (site_len c <=? sbsize text - site_pos c).
+  (0 <=? site_pos c) && (site_pos c <? sbsize text) && (site_len c <=? sbsize text - site_pos c) && (0 <=? site_len c).
 
 (* relocate_to_base(base) on a flattened holder whose relocations are the call sites `calls` = [(pos, target)] of .text
    (section 0); tab = id of the address table if one was created.  Effect on the sections: the bytes of .text are patched,
@@ -95,8 +100,9 @@ Definition emit_call_bytes (st : jstate) (a : Z) : jstate :=
   mkJ (update_id (jh st1) 0 (fun s => set_sizes s (sbsize s + CALL_LEN) (svsize s) (sdata s ++ CALL_BYTES))) (jtab st1) (jaddrs st1).
 
 (* embed_label into .text: 8 zero bytes, patched by relocation *)
-Definition emit_abs_bytes (st : jstate) : jstate :=
-  mkJ (update_id (jh st) 0 (fun s => set_sizes s (sbsize s + ABS_LEN) (svsize s) (sdata s ++ zeros ABS_LEN))) (jtab st) (jaddrs st).
+Definition emit_zero_bytes (st : jstate) (n : Z) : jstate :=
+  mkJ (update_id (jh st) 0 (fun s => set_sizes s (sbsize s + n) (svsize s) (sdata s ++ zeros n))) (jtab st) (jaddrs st).
+Definition emit_abs_bytes (st : jstate) : jstate := emit_zero_bytes st ABS_LEN.
 
 (* JitRuntime::_add with these relocations: flatten, estimate, relocate to `base`, copy every section and zero-fill to its
    virtual size into the (estimate-sized) span, shrink to estimate - reduction. Answers: error, final size, image. *)
